@@ -380,6 +380,19 @@ static void runScenario(uint64_t caseNo, Rng & rng, const char * cfgName, bool o
 			}
 			count("fifo_checked_pairs", (uint64_t)sc.producers);
 		}
+		else if(sc.consumers == 1 && ! sc.selective && heterSelective) {
+			// heterogeneous queue, predicates that accept every event of their prototype: within ONE prototype the events of one
+			// producer must still be consumed in enqueue order (events of other prototypes stay "in place")
+			const int ctid = sc.producers + 1;
+			std::vector<int> last((size_t)sc.producers * 2, -1);
+			const std::vector<int> & o = S->order[ctid];
+			for(size_t i = 0; i < o.size(); ++i) {
+				const size_t slot = (size_t)(o[i] / 1000) * 2 + (size_t)(o[i] & 1);
+				if((o[i] % 1000) < last[slot]) { violation("fifo:single-producer-single-consumer-order:within-one-prototype", "consumer saw event " + num(o[i]) + " after a later event of the same producer and prototype"); break; }
+				last[slot] = o[i] % 1000;
+			}
+			count("fifo_checked_pairs_per_prototype", (uint64_t)sc.producers * 2);
+		}
 
 		// C11: offline join of the observations with the ledger
 		if(kTicks) {
